@@ -64,7 +64,7 @@ fn truncate_case(n: usize, x: Fe, tier: Tier) -> GCase {
             if j == low_ord {
                 continue;
             }
-            devs.push(Dev { script: vec![(low_ord, low_a), (j, high_a)], tag: format!("alias(low,o{})", j - lo) });
+            devs.push(Dev { script: vec![(low_ord, low_a), (j, high_a)], tag: format!("alias(low,o{})", j - lo), must_confirm: false });
         }
         if all_pairs {
             // every ordered pair (i, j) receives (low', high')
@@ -75,7 +75,7 @@ fn truncate_case(n: usize, x: Fe, tier: Tier) -> GCase {
                 }
                 for j in lo..hi {
                     if j != i {
-                        devs.push(Dev { script: vec![(i, low_a), (j, high_a)], tag: format!("alias(o{},o{})", i - lo, j - lo) });
+                        devs.push(Dev { script: vec![(i, low_a), (j, high_a)], tag: format!("alias(o{},o{})", i - lo, j - lo), must_confirm: false });
                     }
                 }
             }
@@ -105,7 +105,7 @@ fn decomposition_case(n: usize, x: Fe) -> GCase {
             }
             let bits = m5::bits_le(m, n);
             let script: Vec<(usize, Fe)> = h.meta.outs.iter().zip(bits.iter()).map(|(o, b)| (*o, *b)).collect();
-            devs.push(Dev { script, tag: format!("alias=x+{}r", k) });
+            devs.push(Dev { script, tag: format!("alias=x+{}r", k), must_confirm: true });
         }
         // truncated bits of an out-of-range value, top bit set/cleared
         devs
